@@ -125,7 +125,8 @@ func (er *EpidemicRouting) clasForBundle(bp BundleDescriptor, updateDb bool) (cs
 }
 
 // DispatchingAllowed only allows dispatching, iff the bundle is addressed to
-// this Node or if any known CLA without having received this bundle exists.
+// this Node, its destination is a directly connected peer or if any known CLA
+// without having received this bundle exists.
 func (er *EpidemicRouting) DispatchingAllowed(bp BundleDescriptor) bool {
 	bi, biErr := er.c.store.QueryId(bp.Id)
 	if biErr != nil {
@@ -137,6 +138,11 @@ func (er *EpidemicRouting) DispatchingAllowed(bp BundleDescriptor) bool {
 		return true
 	} else if dst, ok := bi.Properties["routing/epidemic/destination"]; ok {
 		if er.c.HasEndpoint(dst.(bpv7.EndpointID)) {
+			return true
+		}
+
+		// A directly connected destination is served by the Core itself, regardless of the sent list.
+		if len(er.c.senderForDestination(dst.(bpv7.EndpointID))) > 0 {
 			return true
 		}
 	}
